@@ -171,24 +171,24 @@ theorem shape_name_len {w : Bytes} (h : shapeB .name w = true) : 2 ≤ w.length 
 /-! ### `finish_tag_name` handing over -/
 
 /-- what a hand-over of the scanner looks like -/
-structure FinishDir (cfg : TagCfg) (Pend : κ → Bool) (c : Common) (s : ScanRegs) (x : Ctx κ) (m' : M κ) (bm : Bookmark) : Prop where
+structure FinishDir (cfg : TagCfg) (Pend : κ → Bool) (K : Bool) (c : Common) (s : ScanRegs) (x : Ctx κ) (m' : M κ) (bm : Bookmark) : Prop where
   tagStart : s.tagStart = some bm.pos
   textType : bm.textType = c.lastTextType
   fb : ∃ S1 f, feedbackOf cfg x.sim (!s.isInEndTag, s.tagNameHash) = .ok (S1, f) ∧ m'.x.sim = S1 ∧
     (∀ k, bm.fd = .applyUnhandled (.requestLexeme k) → f = .requestLexeme k) ∧
     bm.lastStartTagNameHash = (if (!s.isInEndTag) && !f.isRL then s.tagNameHash else c.lastStartTagNameHash)
-  pend : Pend x.sink = false → Pend m'.x.sink = true → s.isInEndTag = false
+  pend : Pend x.sink = false → Pend m'.x.sink = true → s.isInEndTag = !K
   regs : ∃ c' s', m'.r = .scanner s' ∧ m'.c = c' ∧ s'.tagStart = none ∧ s'.isInEndTag = false ∧ s'.chSeqStart = s.chSeqStart ∧
     c'.state = c.state ∧ c'.lastTextType = c.lastTextType
 
 section
-variable {env : Env κ} {inp : Bytes} {Pend : κ → Bool}
+variable {env : Env κ} {inp : Bytes} {Pend : κ → Bool} {K : Bool}
 
-theorem scanEmitHint_dir (hlaw : PendLaw env.ops Pend) (c : Common) (s : ScanRegs) (x : Ctx κ) (ts : Nat) (ie : Bool)
+theorem scanEmitHint_dir (hlaw : PendLaw env.ops Pend K) (c : Common) (s : ScanRegs) (x : Ctx κ) (ts : Nat) (ie : Bool)
     (d : Directive) (bm : Bookmark) (h : (scanEmitHint env inp c s x ts ie).2 = some (.directive d bm)) :
     d = .lex ∧ bm.pos = ts ∧ bm.textType = c.lastTextType ∧ bm.fd = scanTakeFeedbackDirective s ∧
     bm.lastStartTagNameHash = (if ie then c.lastStartTagNameHash else s.tagNameHash) ∧
-    (Pend x.sink = false → Pend (scanEmitHint env inp c s x ts ie).1.x.sink = true → ie = false) ∧
+    (Pend x.sink = false → Pend (scanEmitHint env inp c s x ts ie).1.x.sink = true → ie = !K) ∧
     (scanEmitHint env inp c s x ts ie).1.x.sim = x.sim ∧
     (scanEmitHint env inp c s x ts ie).1.c.state = c.state ∧
     (scanEmitHint env inp c s x ts ie).1.c.lastTextType = c.lastTextType ∧
@@ -212,8 +212,11 @@ theorem scanEmitHint_dir (hlaw : PendLaw env.ops Pend) (c : Common) (s : ScanReg
           obtain ⟨h1, h2⟩ := h
           subst h1; subst h2
           refine ⟨rfl, rfl, rfl, rfl, rfl, fun hp hq => ?_, rfl, rfl, rfl, rfl⟩
-          have := hlaw.end_ name x.sink hp
-          rw [this] at hq; simp at hq
+          cases K with
+          | false => rfl
+          | true =>
+            have := hlaw.otherE rfl name x.sink hp
+            rw [this] at hq; simp at hq
     | false =>
       simp only [Bool.false_eq_true, if_false] at h ⊢
       cases hr : (env.ops.startTagHint name x.sim.currentNs x.sink).2 with
@@ -226,11 +229,18 @@ theorem scanEmitHint_dir (hlaw : PendLaw env.ops Pend) (c : Common) (s : ScanReg
           simp only [Option.some.injEq, Signal.directive.injEq] at h
           obtain ⟨h1, h2⟩ := h
           subst h1; subst h2
-          refine ⟨rfl, rfl, rfl, rfl, ?_, ?_, rfl, rfl, rfl, rfl⟩ <;> first | rfl | trivial | simp
+          refine ⟨rfl, rfl, rfl, rfl, ?_, ?_, rfl, rfl, rfl, rfl⟩
+          · first | rfl | trivial | simp
+          · intro hp hq
+            cases K with
+            | true => rfl
+            | false =>
+              have := hlaw.otherS rfl name x.sim.currentNs x.sink hp
+              rw [this] at hq; simp at hq
 
-theorem scanFinishTagName_dir (hlaw : PendLaw env.ops Pend) (c : Common) (s : ScanRegs) (x : Ctx κ)
+theorem scanFinishTagName_dir (hlaw : PendLaw env.ops Pend K) (c : Common) (s : ScanRegs) (x : Ctx κ)
     (d : Directive) (bm : Bookmark) (h : (scanFinishTagName env inp c s x).2 = some (.directive d bm)) :
-    d = .lex ∧ FinishDir env.cfg Pend c s x (scanFinishTagName env inp c s x).1 bm := by
+    d = .lex ∧ FinishDir env.cfg Pend K c s x (scanFinishTagName env inp c s x).1 bm := by
   unfold scanFinishTagName at h ⊢
   cases hts : s.tagStart with
   | none => simp [hts] at h
@@ -250,7 +260,7 @@ theorem scanFinishTagName_dir (hlaw : PendLaw env.ops Pend) (c : Common) (s : Sc
           s0.tagNameHash = s.tagNameHash → s0.chSeqStart = s.chSeqStart → s0.tagStart = none → s0.isInEndTag = false →
           (∀ k, scanTakeFeedbackDirective s0 ≠ .applyUnhandled (.requestLexeme k)) → f.isRL = false →
           (scanEmitHint env inp c0 s0 { x with sim := S1 } ts s.isInEndTag).2 = some (.directive d bm) →
-          d = .lex ∧ FinishDir env.cfg Pend c s x (scanEmitHint env inp c0 s0 { x with sim := S1 } ts s.isInEndTag).1 bm := by
+          d = .lex ∧ FinishDir env.cfg Pend K c s x (scanEmitHint env inp c0 s0 { x with sim := S1 } ts s.isInEndTag).1 bm := by
         intro c0 s0 k1 k2 k3 k4 k5 k6 k7 k8 k9 hh
         obtain ⟨e1, e2, e3, e4, e5, e6, e7, e8, e9, e10⟩ := scanEmitHint_dir (inp := inp) hlaw _ _ _ _ _ d bm hh
         refine ⟨e1, by rw [e2]; exact hts, by rw [e3, k2], ⟨S1, f, hf, e7, fun k' hk => ?_, ?_⟩, fun hp hq => ?_, _, _, e10, rfl, k6, k7, k5, ?_, ?_⟩
@@ -380,23 +390,23 @@ def LexFin (t : Table) (sfin : StateId) (term : UInt8) (K : Bool × Nat) (L0 : N
 bookmark, the lexer-side path over `H` ends in `sfin` whose arm on the terminator finishes the tag
 name; a pending aux-info request belongs to a start tag; an unhandled `RequestLexeme` was computed
 for this very tag and the simulator state it left. -/
-structure HeadDone (env : Env κ) (L : Labels) (S : SLabels) (Pend : κ → Bool) (inp : Bytes) (m' : M κ) (bm : Bookmark) : Prop where
+structure HeadDone (env : Env κ) (L : Labels) (S : SLabels) (Pend : κ → Bool) (K : Bool) (inp : Bytes) (m' : M κ) (bm : Bookmark) : Prop where
   ex : ∃ (H : Bytes) (term : UInt8) (s1' sfin : StateId),
     shapeB .name H = true ∧ (H ++ [term]) <+: inp.drop bm.pos ∧
     ltOf env.tbl (env.tbl.textState bm.textType) = some s1' ∧ absHead env.tbl s1' H.tail = some sfin ∧
     PathImg env.tbl L S s1' H.tail ∧
     LexFin env.tbl sfin term (headKey H) bm.lastStartTagNameHash ∧
-    (Pend m'.x.sink = true → headKind H = true) ∧
+    (Pend m'.x.sink = true → headKind H = K) ∧
     (∀ k, bm.fd = .applyUnhandled (.requestLexeme k) →
       ∃ sim0, feedbackOf env.cfg sim0 (headKey H) = .ok (m'.x.sim, .requestLexeme k))
   regs : ∃ s', m'.r = .scanner s' ∧ s'.tagStart = none ∧ s'.chSeqStart = none ∧ s'.isInEndTag = false
 
-def SemPost (env : Env κ) (L : Labels) (S : SLabels) (Pend : κ → Bool) (inp : Bytes) (last : Bool)
+def SemPost (env : Env κ) (L : Labels) (S : SLabels) (Pend : κ → Bool) (K : Bool) (inp : Bytes) (last : Bool)
     (r : M κ × Option Signal) : Prop :=
   match r.2 with
   | none => HSem env.tbl L S inp r.1
   | some (.endOfInput n) => last = false → ∀ data, HSem env.tbl L S (inp.drop n ++ data) r.1
-  | some (.directive d bm) => d = .lex ∧ HeadDone env L S Pend inp r.1 bm
+  | some (.directive d bm) => d = .lex ∧ HeadDone env L S Pend K inp r.1 bm
   | some (.err _) => True
 
 theorem HSem_of_none {t : Table} {L : Labels} {S : SLabels} {inp : Bytes} {m : M κ} (h : m.ts = none) :
@@ -422,14 +432,14 @@ theorem break_ts_none {inp : Bytes} (m : M κ) (hs : m.isScanner = true) (h : m.
   split <;> split <;> simp [M.ts, h]
 
 section
-variable {env : Env κ} {inp : Bytes} {Pend : κ → Bool} {L : Labels} {S : SLabels}
+variable {env : Env κ} {inp : Bytes} {Pend : κ → Bool} {K : Bool} {L : Labels} {S : SLabels}
 
 /-- a break keeps the semantic head facts (re-based) -/
 theorem break_sem (c : Common) (s : ScanRegs) (x : Ctx κ) (hpos : 1 ≤ c.nextPos)
     (hmid : HeadMid L inp (⟨c, .scanner s, x⟩ : M κ))
     (hsem : HSemMid env.tbl L S inp (⟨c, .scanner s, x⟩ : M κ))
     (hcs : s.chSeqStart = none ∨ s.chSeqStart = some c.pos) :
-    SemPost env L S Pend inp c.isLast (breakOnEndOfInput inp (⟨c, .scanner s, x⟩ : M κ)) := by
+    SemPost env L S Pend K inp c.isLast (breakOnEndOfInput inp (⟨c, .scanner s, x⟩ : M κ)) := by
   cases hts : s.tagStart with
   | none =>
     have := break_ts_none (inp := inp) (⟨c, .scanner s, x⟩ : M κ) rfl (by simpa [M.ts] using hts)
@@ -761,7 +771,7 @@ theorem finish_runSeq_dir {q : ActSeq} (hf : finishCalls q.calls = true) (c : Co
     | some t => simp only [htr] at h; exact htrans t _ h
 
 /-- **the hand-over** -/
-theorem finish_sem (hlaw : PendLaw env.ops Pend) {ph : Phase} {c : Common} {s : ScanRegs} {x : Ctx κ} {b : UInt8}
+theorem finish_sem (hlaw : PendLaw env.ops Pend K) {ph : Phase} {c : Common} {s : ScanRegs} {x : Ctx κ} {b : UInt8}
     {q : ActSeq} (hl : L.at c.state = some ph) (hname : ph = .name) (hpos : 1 ≤ c.nextPos) (hb : inp[c.pos]? = some b)
     (hmid : HeadMid L inp (⟨c, .scanner s, x⟩ : M κ)) (hsem : HSemMid env.tbl L S inp (⟨c, .scanner s, x⟩ : M κ))
     (hpend : Pend x.sink = false) (hcs : s.chSeqStart = none)
@@ -770,7 +780,7 @@ theorem finish_sem (hlaw : PendLaw env.ops Pend) {ph : Phase} {c : Common} {s : 
       LexFin env.tbl (S.at c.state) b K L0)
     (d : Directive) (bm : Bookmark)
     (h : (runSeq env inp q (⟨c, .scanner s, x⟩ : M κ)).2.1 = some (.directive d bm)) :
-    d = .lex ∧ HeadDone env L S Pend inp (runSeq env inp q (⟨c, .scanner s, x⟩ : M κ)).1 bm := by
+    d = .lex ∧ HeadDone env L S Pend K inp (runSeq env inp q (⟨c, .scanner s, x⟩ : M κ)).1 bm := by
   obtain ⟨h1, h2⟩ := finish_runSeq_dir hf c s x d bm h
   rw [h2]
   refine ⟨(scanFinishTagName_dir (inp := inp) hlaw c s x d bm h1).1, ?_⟩
@@ -827,13 +837,13 @@ theorem runSeq_sig_silent {q : ActSeq} (hno : hasAct .finishTagName q.calls = fa
       · exact Or.inl (by first | rfl | trivial)
 
 theorem SemPost_of_err {last : Bool} {r : M κ × Option Signal} {e : Err} (h : r.2 = some (.err e)) :
-    SemPost env L S Pend inp last r := by
+    SemPost env L S Pend K inp last r := by
   unfold SemPost; rw [h]; trivial
 
 variable {TT : TLabels} {P : PLabels}
 
 /-- `mark_tag_start` outside the tag head -/
-theorem mark_sem (hlaw : PendLaw env.ops Pend) {sd : StateDef} {c : Common} {s : ScanRegs} {x : Ctx κ} {arm : Arm} {q : ActSeq}
+theorem mark_sem (hlaw : PendLaw env.ops Pend K) {sd : StateDef} {c : Common} {s : ScanRegs} {x : Ctx κ} {arm : Arm} {q : ActSeq}
     (hok : stateOk env.tbl L c.state sd = true) (hl : L.at c.state = none)
     (hrel : relexStateOk env.tbl S L TT c.state sd = true) (harm : arm ∈ sd.arms) (hq : q ∈ arm.body.seqs)
     (hpos : 1 ≤ c.nextPos)
@@ -897,13 +907,13 @@ theorem mark_sem (hlaw : PendLaw env.ops Pend) {sd : StateDef} {c : Common} {s :
           exact ⟨S.at j, rfl, lexSide_of hm2.2⟩
 
 /-- **an arm selected by a byte** -/
-theorem normal_sem (hlaw : PendLaw env.ops Pend) {sd : StateDef} {m : M κ} {arm : Arm} {b : UInt8}
+theorem normal_sem (hlaw : PendLaw env.ops Pend K) {sd : StateDef} {m : M κ} {arm : Arm} {b : UInt8}
     (h : Disp0 env.tbl L inp sd (some b) m) (hcs : m.cs = none)
     (hlab : LabMid Pend (TT.at m.c.state) (P.at m.c.state) m) (hsem : HSemMid env.tbl L S inp m)
     (hrel : relexStateOk env.tbl S L TT m.c.state sd = true)
     (hbodyP : bodyOkP env.tbl P m.c.state arm.body = true)
     (hfind : findArm env.tbl m.c (some b) sd.arms = some arm) :
-    SemPost env L S Pend inp m.c.isLast ((runBody env inp arm.body m).1, (runBody env inp arm.body m).2.1) := by
+    SemPost env L S Pend K inp m.c.isLast ((runBody env inp arm.body m).1, (runBody env inp arm.body m).2.1) := by
   obtain ⟨harm, hmatch⟩ := findArm_sel hfind
   obtain ⟨c, s, x, rfl⟩ := scanner_destruct m h.scan
   have hb : inp[c.pos]? = some b := h.chSome b rfl
@@ -911,7 +921,7 @@ theorem normal_sem (hlaw : PendLaw env.ops Pend) {sd : StateDef} {m : M κ} {arm
   -- what to do with a list that does not finish the tag name and does not keep the head
   have hplain : ∀ q, q ∈ arm.body.seqs → hasAct .finishTagName q.calls = false →
       (tsCalls q.calls).apply c.pos s.tagStart = none →
-      SemPost env L S Pend inp c.isLast ((runSeq env inp q (⟨c, .scanner s, x⟩ : M κ)).1,
+      SemPost env L S Pend K inp c.isLast ((runSeq env inp q (⟨c, .scanner s, x⟩ : M κ)).1,
         (runSeq env inp q (⟨c, .scanner s, x⟩ : M κ)).2.1) := by
     intro q hq hno hts
     rcases runSeq_sig_silent (env := env) (inp := inp) hno (⟨c, .scanner s, x⟩ : M κ) rfl with hn | ⟨e, he⟩
@@ -973,7 +983,7 @@ theorem normal_sem (hlaw : PendLaw env.ops Pend) {sd : StateDef} {m : M κ} {arm
     have hcase : ∀ q, q ∈ arm.body.seqs →
         (∀ A' q', selArm env.tbl (S.at c.state) b = some A' → A'.body = .seq q' → seqPair S L ph false q q' = true →
           tsCalls q.calls = .keep →
-          SemPost env L S Pend inp c.isLast ((runSeq env inp q (⟨c, .scanner s, x⟩ : M κ)).1,
+          SemPost env L S Pend K inp c.isLast ((runSeq env inp q (⟨c, .scanner s, x⟩ : M κ)).1,
             (runSeq env inp q (⟨c, .scanner s, x⟩ : M κ)).2.1)) := by
       intro q hq A' q' hsel hbody hsp hk
       have hkc : keepCallsOk ph q.calls = true := by
@@ -987,7 +997,7 @@ theorem normal_sem (hlaw : PendLaw env.ops Pend) {sd : StateDef} {m : M κ} {arm
         finishCalls q.calls = true → ph = .name →
         (∀ K L0, K = (!s.isInEndTag, s.tagNameHash) → (K.1 = false → L0 = c.lastStartTagNameHash) →
           LexFin env.tbl (S.at c.state) b K L0) →
-        SemPost env L S Pend inp c.isLast ((runSeq env inp q (⟨c, .scanner s, x⟩ : M κ)).1,
+        SemPost env L S Pend K inp c.isLast ((runSeq env inp q (⟨c, .scanner s, x⟩ : M κ)).1,
           (runSeq env inp q (⟨c, .scanner s, x⟩ : M κ)).2.1) := by
       intro q hq hfi hk hfc hname hfin
       cases hsig : (runSeq env inp q (⟨c, .scanner s, x⟩ : M κ)).2.1 with
@@ -1189,7 +1199,7 @@ theorem runCalls_quiet (cs : List Call) (hq : ∀ cl ∈ cs, quietAct cl.act = t
 /-! ### arms not selected by a byte, breaks -/
 
 theorem break_sem_none (m : M κ) (hs : m.isScanner = true) (h : m.ts = none) :
-    SemPost env L S Pend inp m.c.isLast (breakOnEndOfInput inp m) := by
+    SemPost env L S Pend K inp m.c.isLast (breakOnEndOfInput inp m) := by
   have := break_ts_none (inp := inp) m hs h
   unfold SemPost
   split
@@ -1208,8 +1218,8 @@ theorem quiet_no_finish {cs : List Call} (hq : ∀ cl ∈ cs, quietAct cl.act = 
 /-- a list without `finish_tag_name` after which `tag_start` is clear -/
 theorem silent_none_sem {q : ActSeq} (hno : hasAct .finishTagName q.calls = false) (m : M κ) (hm : m.isScanner = true)
     (hts : (tsCalls q.calls).apply m.c.pos m.ts = none) :
-    SemPost env L S Pend inp m.c.isLast ((runSeq env inp q m).1, (runSeq env inp q m).2.1) ∧
-    SemPost env L S Pend inp m.c.isLast (finishArm inp (runSeq env inp q m)) := by
+    SemPost env L S Pend K inp m.c.isLast ((runSeq env inp q m).1, (runSeq env inp q m).2.1) ∧
+    SemPost env L S Pend K inp m.c.isLast (finishArm inp (runSeq env inp q m)) := by
   obtain ⟨s1, _, s3, _, s5⟩ := runSeq_spec (env := env) (inp := inp) q m hm
   rcases runSeq_sig_silent (env := env) (inp := inp) hno m hm with hn | ⟨e, he⟩
   · have htn : (runSeq env inp q m).1.ts = none := by rw [(s5 hn).1]; exact hts
@@ -1278,7 +1288,7 @@ theorem special_sem {sd : StateDef} {m : M κ} {arm : Arm}
     (h : Disp0 env.tbl L inp sd none m) (hcs : m.cs = none) (hsem : HSemMid env.tbl L S inp m)
     (hrel : relexStateOk env.tbl S L TT m.c.state sd = true)
     (harm : arm ∈ sd.arms) (hpat : arm.pat = .eoc ∨ arm.pat = .eof) :
-    SemPost env L S Pend inp m.c.isLast (finishArm inp (runBody env inp arm.body m)) := by
+    SemPost env L S Pend K inp m.c.isLast (finishArm inp (runBody env inp arm.body m)) := by
   have hsp : arm.pat.isSpecial = true := by rcases hpat with h' | h' <;> simp [h', Pat.isSpecial]
   obtain ⟨q, hq, hrun⟩ := runBody_seq (env := env) (inp := inp) arm.body m h.scan
   rw [hrun]
@@ -1326,7 +1336,7 @@ theorem runSeqArms_sem {sd : StateDef} {ch : Option UInt8} (arms : List Arm) (hs
     (m : M κ) (h : Disp0 env.tbl L inp sd ch m) (hsem : HSemMid env.tbl L S inp m)
     (hrel : relexStateOk env.tbl S L TT m.c.state sd = true) :
     match runSeqArms env inp ch arms m with
-    | .inl r => SemPost env L S Pend inp m.c.isLast r
+    | .inl r => SemPost env L S Pend K inp m.c.isLast r
     | .inr m' => semKey m' = semKey m ∧ m'.x = m.x ∧ m'.isScanner = true := by
   induction arms generalizing m with
   | nil => show semKey m = semKey m ∧ m.x = m.x ∧ m.isScanner = true; exact ⟨rfl, rfl, h.scan⟩
@@ -1344,7 +1354,7 @@ theorem runSeqArms_sem {sd : StateDef} {ch : Option UInt8} (arms : List Arm) (hs
     have hskip := ih hrest (leaveSeq (enterSeq m)) hD (HSemMid_congr h.scan l2 hsem (by rw [l1, e1]))
       (by rw [hc2]; exact hrel)
     have hskip' : match runSeqArms env inp ch rest (leaveSeq (enterSeq m)) with
-        | .inl r => SemPost env L S Pend inp m.c.isLast r
+        | .inl r => SemPost env L S Pend K inp m.c.isLast r
         | .inr m' => semKey m' = semKey m ∧ m'.x = m.x ∧ m'.isScanner = true := by
       split at hskip
       · rw [← show (leaveSeq (enterSeq m)).c.isLast = m.c.isLast by rw [hc2]]; exact hskip
@@ -1408,14 +1418,14 @@ theorem runSeqArms_sem {sd : StateDef} {ch : Option UInt8} (arms : List Arm) (hs
       rw [runSeqArms_cons_other ch arm rest m hnp]
       exact ih hrest m h hsem hrel
 
-theorem dispatch_sem (hlaw : PendLaw env.ops Pend) {sd : StateDef} {ch : Option UInt8} (m : M κ)
+theorem dispatch_sem (hlaw : PendLaw env.ops Pend K) {sd : StateDef} {ch : Option UInt8} (m : M κ)
     (h : Disp0 env.tbl L inp sd ch m) (hstale : m.cs ≠ none → hasSeq sd.arms = true)
     (hlab : LabMid Pend (TT.at m.c.state) (P.at m.c.state) m) (hsem : HSemMid env.tbl L S inp m)
     (hrel : relexStateOk env.tbl S L TT m.c.state sd = true)
     (hP : ∀ a ∈ sd.arms, bodyOkP env.tbl P m.c.state a.body = true) :
-    SemPost env L S Pend inp m.c.isLast (dispatch env inp ch sd.arms m) := by
+    SemPost env L S Pend K inp m.c.isLast (dispatch env inp ch sd.arms m) := by
   rw [dispatch_eq]
-  have h1 := runSeqArms_sem (Pend := Pend) sd.arms (fun a ha => ha) m h hsem hrel
+  have h1 := runSeqArms_sem (Pend := Pend) (K := K) sd.arms (fun a ha => ha) m h hsem hrel
   have h2 := scan_runSeqArms_post (env := env) sd.arms (fun a ha => ha) m h
   cases hs : runSeqArms env inp ch sd.arms m with
   | inl r => rw [hs] at h1; exact h1
@@ -1483,7 +1493,7 @@ theorem dispatch_sem (hlaw : PendLaw env.ops Pend) {sd : StateDef} {ch : Option 
 
 /-! ### one state-function call -/
 
-theorem preStep_facts (hlaw : PendLaw env.ops Pend) {sd : StateDef} (m : M κ) (hs : m.isScanner = true)
+theorem preStep_facts (hlaw : PendLaw env.ops Pend K) {sd : StateDef} (m : M κ) (hs : m.isScanner = true)
     (henter : tsCalls sd.enter = .keep)
     (hlab : LabMid Pend (TT.at m.c.state) (P.at m.c.state) m)
     (hq : callsOk sd.enter = true) (habs : phCalls sd.enter (P.at m.c.state) = some (P.at m.c.state))
@@ -1534,10 +1544,10 @@ theorem preStep_facts (hlaw : PendLaw env.ops Pend) {sd : StateDef} (m : M κ) (
 
 /-- **One state-function call of a scanner machine keeps the semantic head facts; a hand-over
 carries `HeadDone`.** -/
-theorem stateFn_sem (hlaw : PendLaw env.ops Pend) (hhead : HeadOk env.tbl L = true)
+theorem stateFn_sem (hlaw : PendLaw env.ops Pend K) (hhead : HeadOk env.tbl L = true)
     (hrelex : RelexOk env.tbl L TT S = true) (htt : TextTypeOk env.tbl TT = true) (hph : PhaseOk env.tbl P = true)
     (m : M κ) (h : HInv env.tbl L inp m) (hlab : LabInv TT P Pend m) (hsem : HSem env.tbl L S inp m) :
-    SemPost env L S Pend inp m.c.isLast (stateFn env inp m) := by
+    SemPost env L S Pend K inp m.c.isLast (stateFn env inp m) := by
   rw [stateFn_preConsume]
   cases hsd : env.tbl.state? m.c.state with
   | none => exact SemPost_of_err rfl
@@ -1687,12 +1697,12 @@ structure RelexSide (t : Table) (L : Labels) (TT : TLabels) (P : PLabels) (S : S
   tt : TextTypeOk t TT = true
   phase : PhaseOk t P = true
 
-theorem runLoop_scanAll (hlaw : PendLaw env.ops Pend) (hside : RelexSide env.tbl L TT P S) (n : Nat) (m : M κ)
+theorem runLoop_scanAll (hlaw : PendLaw env.ops Pend K) (hside : RelexSide env.tbl L TT P S) (n : Nat) (m : M κ)
     (h : ScanAll env L TT P S Pend inp m) :
     match (runLoop env inp n m).2 with
     | .endOfInput k => HeldOk env.tbl inp k ∧ (runLoop env inp n m).1.isScanner = true ∧
         (m.c.isLast = false → ∀ data, ScanAll env L TT P S Pend (inp.drop k ++ data) (runLoop env inp n m).1)
-    | .directive d bm => d = .lex ∧ HeadDone env L S Pend inp (runLoop env inp n m).1 bm
+    | .directive d bm => d = .lex ∧ HeadDone env L S Pend K inp (runLoop env inp n m).1 bm
     | .err _ => True := by
   induction n generalizing m with
   | zero => simp [runLoop]
